@@ -86,6 +86,15 @@ def observe(case):
             out.append(record(p, pp, pidx, order, t, None, rnd.random() < .5))
         pp, pidx = qproj.pattern_of_molecule(t)
         out.append(record(t, pp, pidx, list(t._atoms), t, None, 0))        # the molecule against itself: automorphisms
+    elif kind == 'pair':      # two molecules with the same graph that differ in configuration marks only (the matcher does not look at them)
+        try:
+            o = smiles(case['p'])
+            o.kekule()
+        except Exception as e:
+            return [{'skip': type(e).__name__}]
+        for a, b in ((o, t), (t, o)):
+            pp, pidx = qproj.pattern_of_molecule(a)
+            out.append(record(a, pp, pidx, list(a._atoms), b, None, 0))
     else:
         q = smarts(case['p']) if isinstance(case['p'], str) else None
         order = list(q._atoms)
@@ -143,6 +152,9 @@ def run(ck):
     for s in ['[Cl,Br]-C', '[Si,P]', '[N,O]-C', 'C-[F,Cl,Br,I]', '[Sn,Na]~[A]', '[Co,Ni]', '[Cl,Br].[Na,K]']:
         for t in ['CCCl', 'BrCCB(C)C', 'CSC', 'C[Si](C)(C)I', 'NCCO', 'CC(F)CI', 'C=O.[Co]', 'N[Na]', '[Na+].[Cl-].NC']:
             cases.append({'key': f'smarts:{s}:{t}', 'kind': 'smarts', 't': t, 'p': s, 'rs': rnd.randrange(1 << 30), 'thiele': False})
+    for a, b in [('C[C@H](N)O', 'C[C@@H](N)O'), ('C[C@H](N)O', 'CC(N)O'), ('F/C=C/F', 'F/C=C\\F'), ('F/C=C/F', 'FC=CF'), ('C[C@H]1CC[C@@H](C)CC1', 'C[C@H]1CC[C@H](C)CC1'), ('N[C@@H](C)C(=O)O', 'N[C@H](C)C(=O)O'),
+                 ('CC=[C@]=CF', 'CC=[C@@]=CF'), ('C/C=C/C=C\\C', 'C/C=C/C=C/C'), ('CCO', 'CCO'), ('CCO', 'OCC'), ('CCO', 'CCN')]:
+        cases.append({'key': f'pair:{a}:{b}', 'kind': 'pair', 't': b, 'p': a, 'rs': rnd.randrange(1 << 30), 'thiele': False})
     # patterns of several components under scopes that exclude whole components of the target
     for s in ['C.O', 'CC.N', 'C.N.O', 'CO.CN', 'C.C', '[O;D1].[N;D1]', 'CC']:
         for t in ['CCO.CCN.O', 'CCO.CCN', 'C[N+](C)(C)C.[Cl-].O', 'OCCO.NCCN.CC', 'CC.CC.CC']:
